@@ -28,7 +28,7 @@
 )
 (global $g1 (mut (ref null $_Str)) (ref.null $_Str))
 ;; Passive data segment for string constants (used with array.new_data)
-(data $d0 "0\00-2147483648")
+(data $d0 "0\00-2147483648pop from empty VecVec index out of bounds")
 (func $__$getBuiltinString (param $offset i32) (param $size i32) (result (ref $_Str))
   (array.new_data $_Str $d0 (local.get $offset) (local.get $size))
 )
@@ -253,6 +253,15 @@
 ;; matching the pattern used by Str.fromInt and Process.println.
 ;; -----------------------------------------------------------------------------
 
+;; Panic with a message stored in $d0 at [offset, offset + size). The messages are the ones the
+;; TypeScript runtime throws, so that both backends terminate the same way. Never returns.
+(func $__$vecPanic (param $offset i32) (param $size i32)
+  (drop (call $__Process$panic
+    (ref.i31 (i32.const 0))
+    (call $__$getBuiltinString (local.get $offset) (local.get $size))))
+  (unreachable)
+)
+
 (func $__$unwrapI31 (param $v (ref eq)) (result i32)
   (i31.get_s (ref.cast (ref i31) (local.get $v)))
 )
@@ -318,7 +327,8 @@
 (func $__Vec$pop (param $this (ref $_Vec)) (result (ref eq))
   (local $len i32) (local $v (ref null eq))
   (local.set $len (struct.get $_Vec 1 (local.get $this)))
-  (if (i32.eqz (local.get $len)) (then (unreachable)))
+  ;; "pop from empty Vec"
+  (if (i32.eqz (local.get $len)) (then (call $__$vecPanic (i32.const 13) (i32.const 18))))
   (local.set $len (i32.sub (local.get $len) (i32.const 1)))
   (local.set $v (array.get $_VecData
     (struct.get $_Vec 0 (local.get $this))
@@ -333,15 +343,17 @@
 )
 
 (func $__Vec$get (param $this (ref $_Vec)) (param $i i32) (result (ref eq))
+  ;; "Vec index out of bounds"
   (if (i32.ge_u (local.get $i) (struct.get $_Vec 1 (local.get $this)))
-    (then (unreachable)))
+    (then (call $__$vecPanic (i32.const 31) (i32.const 23))))
   (ref.as_non_null
     (array.get $_VecData (struct.get $_Vec 0 (local.get $this)) (local.get $i)))
 )
 
 (func $__Vec$set (param $this (ref $_Vec)) (param $i i32) (param $v (ref null eq)) (result i32)
+  ;; "Vec index out of bounds"
   (if (i32.ge_u (local.get $i) (struct.get $_Vec 1 (local.get $this)))
-    (then (unreachable)))
+    (then (call $__$vecPanic (i32.const 31) (i32.const 23))))
   (array.set $_VecData
     (struct.get $_Vec 0 (local.get $this))
     (local.get $i)
